@@ -751,6 +751,7 @@ func (r *FnRun) applyContract(st *State, site ssa.Instruction, c *Contract, name
 	if len(items) > 0 {
 		r.checkFrameCall(st, site, items, name)
 		r.havocItems(st, items)
+		r.assumeGlobalInvs(st)
 	}
 	if !c.Pure {
 		r.bumpAlloc(st)
@@ -1409,6 +1410,7 @@ func (r *FnRun) havocLoop(st *State, li *loopInfo, b *ssa.BasicBlock) {
 		st.heap["A"] = n
 	}
 	r.bumpAlloc(st)
+	r.assumeGlobalInvs(st)
 }
 
 // ---------- function entry / exit ----------
@@ -1555,6 +1557,11 @@ func (r *FnRun) assumeFieldTypes(st *State, ref string, t types.Type, depth int)
 			r.assumeTy(st, fr, types.NewPointer(ft))
 			st.assume(sEq(sx("elty", fr), "0"))
 			r.assumeFieldTypes(st, fr, ft, depth+1)
+		case *types.Slice, *types.Interface:
+			st.assume(sEq(sx("elty", fr), "0"))
+			for j := 0; j < 4; j++ {
+				st.assume(sEq(sx("elty", sx("fld", fr, fmt.Sprint(j))), "0")) // header cells
+			}
 		default:
 			st.assume(sEq(sx("elty", fr), "0")) // not an array: never the base of a slice
 		}
@@ -1665,4 +1672,38 @@ func (r *FnRun) loopUntouchedAllocs(li *loopInfo) []ssa.Value {
 		}
 	}
 	return out
+}
+
+// assumeGlobalInvs: invariants over init-only package-level variables hold in every state.
+func (r *FnRun) assumeGlobalInvs(st *State) {
+	for _, gi := range r.W.Specs.GlobalInvs {
+		// only where the package of the invariant is visible
+		fp := r.Fn.Pkg
+		if fp == nil && r.Fn.Parent() != nil {
+			fp = r.Fn.Parent().Pkg
+		}
+		if fp == nil {
+			continue
+		}
+		vis := fp.Pkg.Path() == gi.Pkg
+		for _, imp := range fp.Pkg.Imports() {
+			if imp.Path() == gi.Pkg {
+				vis = true
+			}
+		}
+		if !vis {
+			continue
+		}
+		env := &Env{r: r, st: st, vars: map[string]Val{}}
+		if sp := r.W.SSAPkgs[gi.Pkg]; sp != nil {
+			env.pkg = sp.Pkg
+		}
+		v := env.eval(gi.Body)
+		if env.err != nil {
+			r.errorf("%s: globalinv %s: %v", gi.File, gi.Name, env.err)
+			return
+		}
+		st.assume(v.S)
+		r.Assump["global invariant "+gi.Name+" (variables written only by the package initialiser; their backing arrays are assumed immutable): "+gi.Src] = true
+	}
 }
